@@ -555,7 +555,8 @@ def gen_vm(repo):
 # ----------------------------------------------------------------- panic-site ledger
 
 LEDGER_FILES = [VM + "machine.rs", VM + "stack.rs", VM + "scope.rs", VM + "data.rs",
-                VM + "error.rs", VM + "io.rs", VM + "context.rs", MOD + "codemap.rs"]
+                VM + "error.rs", VM + "io.rs", VM + "context.rs", MOD + "codemap.rs",
+                VM + "serialize.rs"]
 
 PANIC_MACROS = {"todo", "unimplemented", "unreachable", "panic", "assert", "assert_eq", "assert_ne",
                 "debug_assert", "debug_assert_eq", "debug_assert_ne", "bug"}
@@ -564,7 +565,9 @@ PANIC_METHODS = {"unwrap", "expect", "unwrap_err", "expect_err", "assume", "unwr
                  "split_off", "drain", "with_capacity", "reserve", "reserve_exact", "get_unchecked",
                  "get_unchecked_mut", "rotate_left", "rotate_right", "chunks", "chunks_exact", "windows",
                  "step_by", "repeat", "from_utf8_unchecked", "abs", "pow", "div_euclid", "rem_euclid",
-                 "borrow_mut", "try_into_unwrap"}
+                 "borrow_mut", "try_into_unwrap", "split_at_unchecked", "split_first_chunk", "split_last_chunk",
+                 "split_off_first", "split_off_last", "first_chunk", "last_chunk", "as_chunks", "as_array", "from_utf8_lossy",
+                 "extend_from_within", "truncate", "set_len", "fill", "swap", "split_first", "split_last"}
 # ambiguous by name alone (Vec::insert/remove panic, BTreeMap::insert/remove do not): listed, the
 # hand ledger says which they are
 AMBIGUOUS_METHODS = {"insert", "remove"}
